@@ -171,11 +171,13 @@ var All = []*Prop{
 	},
 	{
 		ID:    "C13",
-		Rules: []*core.Rule{rules.ExportCycle},
-		Explanation: "Clause decided: 'exporting a script-built object graph preserves sharing and cycles within one export' and, as its safety half, 'no export recursion aborts the host'. R-EXPORTCYCLE enumerates every implementation of objectImpl.export / exportToMap / exportToArrayOrSlice (and the generic helpers); each one that contains a recursion point into the object's own contents (exportValue, X.self.export, toReflectValue) must (a) for the untyped variant look its own object up with ctx.get and recurse only on the miss edge, (b) register its own object with ctx.put/putTyped on every path before each recursion point (dominance); typed variants must only be invoked on the miss edge of ctx.getTyped. Pure pass-through to another object's implementation is recognised as delegation.",
-		Technique:  "get/put-before-recursion dominance over SSA for every implementation of the export interface methods",
+		Rules: []*core.Rule{rules.ExportCycle, rules.ExportCache, rules.WrapperTxn},
+		Explanation: "Clause decided: 'exporting a script-built object graph preserves sharing and cycles within one export' and, as its safety half, 'no export recursion aborts the host'. R-EXPORTCYCLE enumerates every implementation of objectImpl.export / exportToMap / exportToArrayOrSlice (and the generic helpers); each one that contains a recursion point into the object's own contents (exportValue, X.self.export, toReflectValue) must (a) for the untyped variant look its own object up with ctx.get and recurse only on the miss edge, (b) register its own object with ctx.put/putTyped on every path before each recursion point (dominance); typed variants must only be invoked on the miss edge of ctx.getTyped. Pure pass-through to another object's implementation is recognised as delegation. " +
+			"R-EXPORTCACHE: inside the cache itself an image once recorded is never forgotten - in put/putTyped a freshly made per-type table is stored into ctx.cache[key] only on the miss edge of the lookup or after the previous entry was copied into it. " +
+			"R-WRAPPERTXN ('host values wrapped by ToValue are live views'): overwriting a slot of a reflect-backed struct/array whose wrapper was handed out is detach -> convert -> (drop from cache | re-attach): on the err != nil edge of toReflectValue the detached wrapper is re-attached with setReflectValue, and the cache entry is removed only under err == nil.",
+		Technique:  "get/put-before-recursion dominance over SSA for every implementation of the export interface methods; controlling-condition classification of map updates and of the two outcomes of a fallible conversion",
 		DesignRef:  "DESIGN.md section 4, C13",
-		NotCovered: "round-trip identity ToValue/Export, ExportTo deep equality, live-view aliasing of wrapped structs/maps/slices and their element wrapper caches, the bookkeeping inside objectExportCtx.put/putTyped themselves: reflection-driven, value- and history-level",
+		NotCovered: "round-trip identity ToValue/Export, ExportTo deep equality, live-view aliasing of wrapped structs/maps/slices beyond the overwrite transaction: reflection-driven, value- and history-level",
 	},
 	{
 		ID:    "C03",
